@@ -42,6 +42,8 @@ type c16Case struct {
 var c16LineFaults = []struct{ Name, Line string }{
 	{"include of a missing file", "##!> include nosuchfile"},
 	{"include-except with a missing exclude file", "##!> include-except inc nosuchfile"},
+	{"include-except with a missing exclude file after one that excludes everything", "##!> include-except inc everything nosuchfile"},
+	{"include-except of an include file without entries with a missing exclude file", "##!> include-except noentries nosuchfile"},
 	{"entry RE2 rejects", "a(b"},
 	{"entry RE2 rejects (bad repeat)", "a**{"},
 	{"unknown processor", "##!> frobnicate"},
@@ -94,6 +96,8 @@ func c16Cases() []c16Case {
 			mk := func(file string) core.Tree {
 				t := c16Base()
 				t["regex-assembly/include/flagged.ra"] = "##!+ i\nfoo\n"
+				t["regex-assembly/exclude/everything.ra"] = "yb\nxa\n"
+				t["regex-assembly/include/noentries.ra"] = "##! nothing here\n\n"
 				t["regex-assembly/"+file] = plant(where, f.Line)
 				if strings.Contains(where, "include") && where != "after a good include" {
 					t["regex-assembly/include/faulty.ra"] = "x\n" + f.Line + "\ny\n"
